@@ -365,6 +365,7 @@ func (w *chunkRecorder) Write(p []byte) (int, error) {
 // ---- kinds ----------------------------------------------------------------------
 
 var kSamWrite = register(&Kind{Name: "sam_write",
+	Project: func(out Val) Val { return L(joinChunks(out.At(0)), out.At(1)) },
 	Impl: func(in Val) Val {
 		s := samFromVal(in.At(0))
 		w := &chunkRecorder{}
